@@ -86,6 +86,10 @@ fn gen_tl_case(r: &mut Xo, prop: u8) -> SimCase {
     }
     // the internal timer ignores the integration's trigger delay (only action timers are shifted by it):
     // some C18 cases run with an integration whose only non-zero delay is a constant trigger delay
+    // layered simulation: the run that is checked takes the tunnel-sent events of a first run as its traffic
+    if prop == 16 && r.chance(1, 8) {
+        c.layered = true;
+    }
     if prop == 18 && r.chance(1, 6) {
         c.trigger_delay_us = *r.pick(&[1u64, 7, 1000, 2500]);
     }
@@ -105,6 +109,9 @@ impl Prop for SimTl {
         let c = gen_tl_case(&mut r, self.prop);
         if c.trigger_delay_us > 0 {
             out.bump("cases_with_an_integration_trigger_delay");
+        }
+        if c.layered {
+            out.bump("layered_cases_(output_events_of_a_first_run_reused_as_input)");
         }
         let pid = format!("C{}", self.prop);
         out.evaluations += 1;
